@@ -7,41 +7,621 @@ namespace Relic.Model
 
 variable (cfg : Cfg)
 
-theorem bnMulDig_exact (hw : 0 < cfg.w) (a : Bn) (d : Nat) (ha : a.WF cfg.B) (hd : d < cfg.B) :
-    ExactR cfg.B (bnMulDig cfg a d) (a.toInt cfg.B * d) := by sorry
+set_option linter.unnecessarySeqFocus false
 
-theorem bnMulBasic_exact (hw : 0 < cfg.w) (a b : Bn) (ha : a.WF cfg.B) (hb : b.WF cfg.B) :
-    ExactR cfg.B (bnMulBasic cfg a b) (a.toInt cfg.B * b.toInt cfg.B) := by sorry
+/-! ### helpers -/
+
+theorem HighMul.grow_ok {n : Nat} (h : ¬ n > cfg.cap) : grow cfg n = some () := by
+  unfold grow; rw [if_neg h]
+
+theorem HighMul.grow_fail {n : Nat} (h : n > cfg.cap) : grow cfg n = none := by
+  unfold grow; rw [if_pos h]
+
+/-- the common last step of every multiplication: trim a digit vector of value |a|·|b| -/
+theorem HighMul.mul_fin {B : Nat} (hB : 0 < B) (a b : Bn) (l : List Nat) (hl : ∀ d ∈ l, d < B)
+    (hv : val B l = val B a.dp * val B b.dp) :
+    (bnTrim { neg := a.neg != b.neg, dp := l }).WF B ∧
+    (bnTrim { neg := a.neg != b.neg, dp := l }).toInt B = a.toInt B * b.toInt B := by
+  have := bnTrim_exact (B := B) hB (a.neg != b.neg) l hl
+  refine ⟨this.1, ?_⟩
+  rw [this.2, hv]
+  unfold Bn.toInt
+  cases a.neg <;> cases b.neg <;> simp
+
+theorem bnMulDig_eq (a : Bn) (d : Nat) : bnMulDig cfg a d =
+    if a.used + 1 > cfg.cap then none
+    else some (bnTrim { neg := a.neg, dp := (mul1Low cfg.B a.dp d 0).1 ++ [(mul1Low cfg.B a.dp d 0).2] }) := by
+  unfold bnMulDig
+  by_cases h : a.used + 1 > cfg.cap
+  · rw [if_pos h, HighMul.grow_fail cfg h]; rfl
+  · rw [if_neg h, HighMul.grow_ok cfg h]; rfl
+
+theorem bnMulDig_exact (hw : 0 < cfg.w) (a : Bn) (d : Nat) (ha : a.WF cfg.B) (hd : d < cfg.B) :
+    ExactR cfg.B (bnMulDig cfg a d) (a.toInt cfg.B * d) := by
+  have hB := cfg.one_lt_B hw
+  intro c hc
+  rw [bnMulDig_eq] at hc
+  split at hc
+  · exact absurd hc (by simp)
+  simp only [Option.some.injEq] at hc
+  subst hc
+  obtain ⟨e, c1, d1, l1⟩ := mul1Low_spec cfg.B hB a.dp d 0 hd (by omega) ha.dig
+  generalize mul1Low cfg.B a.dp d 0 = p at *
+  obtain ⟨q, cy⟩ := p
+  simp only at e c1 d1 l1 ⊢
+  have hdq : ∀ x ∈ q ++ [cy], x < cfg.B := by
+    intro x hx
+    rcases List.mem_append.1 hx with hx | hx
+    · exact d1 x hx
+    · simp at hx; omega
+  have := bnTrim_exact (B := cfg.B) (by omega) a.neg (q ++ [cy]) hdq
+  refine ⟨this.1, ?_⟩
+  rw [this.2, High.val_snoc, l1, Nat.mul_comm _ cy, e]
+  unfold Bn.toInt
+  cases a.neg <;> simp
+
+theorem bnMulComba_eq (a b : Bn) : bnMulComba cfg a b =
+    if a.used + b.used > cfg.cap then none
+    else some (bnTrim { neg := a.neg != b.neg, dp :=
+      (if a.used = b.used then mulnLow cfg.B a.dp b.dp a.used
+       else if a.used > b.used then muldLow cfg.B a.dp a.used b.dp b.used
+       else muldLow cfg.B b.dp b.used a.dp a.used) }) := by
+  unfold bnMulComba
+  by_cases h : a.used + b.used > cfg.cap
+  · rw [if_pos h, HighMul.grow_fail cfg h]; rfl
+  · rw [if_neg h, HighMul.grow_ok cfg h]; rfl
 
 theorem bnMulComba_exact (hw : 0 < cfg.w) (a b : Bn) (ha : a.WF cfg.B) (hb : b.WF cfg.B)
     (hs : min a.used b.used < cfg.B) :
-    ExactR cfg.B (bnMulComba cfg a b) (a.toInt cfg.B * b.toInt cfg.B) := by sorry
+    ExactR cfg.B (bnMulComba cfg a b) (a.toInt cfg.B * b.toInt cfg.B) := by
+  have hB := cfg.one_lt_B hw
+  intro c hc
+  rw [bnMulComba_eq] at hc
+  split at hc
+  · exact absurd hc (by simp)
+  simp only [Option.some.injEq] at hc
+  subst hc
+  have hua := ha.used_pos
+  have hub := hb.used_pos
+  apply HighMul.mul_fin (by omega) a b
+  · split
+    · rename_i he
+      exact (mulnLow_spec cfg.B hB a.dp b.dp a.used rfl he.symm (by omega) ha.dig hb.dig).2.2
+    · split
+      · exact (muldLow_spec cfg.B hB a.dp b.dp a.used b.used rfl rfl (by omega) (by omega) (by omega)
+          ha.dig hb.dig).2.2
+      · exact (muldLow_spec cfg.B hB b.dp a.dp b.used a.used rfl rfl (by omega) (by omega) (by omega)
+          hb.dig ha.dig).2.2
+  · split
+    · rename_i he
+      exact (mulnLow_spec cfg.B hB a.dp b.dp a.used rfl he.symm (by omega) ha.dig hb.dig).1
+    · split
+      · exact (muldLow_spec cfg.B hB a.dp b.dp a.used b.used rfl rfl (by omega) (by omega) (by omega)
+          ha.dig hb.dig).1
+      · rw [(muldLow_spec cfg.B hB b.dp a.dp b.used a.used rfl rfl (by omega) (by omega) (by omega)
+          hb.dig ha.dig).1, Nat.mul_comm]
+
+theorem bnSqrComba_eq (a : Bn) : bnSqrComba cfg a =
+    if 2 * a.used > cfg.cap then none
+    else some (bnTrim { neg := false, dp := sqrnLow cfg.B a.dp a.used }) := by
+  unfold bnSqrComba
+  by_cases h : 2 * a.used > cfg.cap
+  · rw [if_pos h, HighMul.grow_fail cfg h]; rfl
+  · rw [if_neg h, HighMul.grow_ok cfg h]; rfl
+
+theorem bnSqrComba_exact (hw : 0 < cfg.w) (a : Bn) (ha : a.WF cfg.B) (hs : a.used < cfg.B) :
+    ExactR cfg.B (bnSqrComba cfg a) (a.toInt cfg.B * a.toInt cfg.B) := by
+  have hB := cfg.one_lt_B hw
+  intro c hc
+  rw [bnSqrComba_eq] at hc
+  split at hc
+  · exact absurd hc (by simp)
+  simp only [Option.some.injEq] at hc
+  subst hc
+  obtain ⟨e, _, d1⟩ := sqrnLow_spec cfg.B hB a.dp a.used rfl hs ha.dig
+  have := HighMul.mul_fin (B := cfg.B) (by omega) a a _ d1 e
+  simpa using this
+
+theorem bnMul_total (a b : Bn) (h : a.used + b.used ≤ cfg.cap) :
+    (bnMulBasic cfg a b).isSome ∧ (bnMulComba cfg a b).isSome := by
+  constructor
+  · unfold bnMulBasic
+    rw [HighMul.grow_ok cfg (by omega)]; rfl
+  · rw [bnMulComba_eq, if_neg (by omega)]; rfl
+
+/-! ### bn_mul_basic -/
+
+theorem HighMul.step_shape (lo seg : List Nat) (k i m cy : Nat) (hlo : lo.length = i + m)
+    (hseg : seg.length = m) :
+    (splice (lo ++ List.replicate (k + 1) 0) i seg).set (i + m) cy
+      = (lo.take i ++ seg ++ [cy]) ++ List.replicate k 0 := by
+  unfold splice
+  have h1 : (lo ++ List.replicate (k + 1) 0).take i = lo.take i :=
+    List.take_append_of_le_length (by omega)
+  have h2 : (lo ++ List.replicate (k + 1) 0).drop (i + seg.length) = List.replicate (k + 1) 0 := by
+    rw [hseg, ← hlo]; exact List.drop_left
+  rw [h1, h2, List.replicate_succ]
+  have h3 : (lo.take i ++ seg).length = i + m := by
+    rw [List.length_append, List.length_take, hseg]; omega
+  rw [← h3, List.set_append_right _ _ (Nat.le_refl _)]
+  simp
+
+theorem HighMul.seg_shape (lo rest : List Nat) (i m : Nat) (hlo : lo.length = i + m) :
+    ((lo ++ rest).drop i).take m = lo.drop i := by
+  rw [List.drop_append_of_le_length (by omega)]
+  apply List.take_left'
+  rw [List.length_drop]; omega
+
+def mulBasicStep (B : Nat) (a b : List Nat) (t : List Nat) (i : Nat) : List Nat :=
+  (splice t i (mulaLow B ((t.drop i).take b.length) b (a.getD i 0) 0).1).set (i + b.length)
+    (mulaLow B ((t.drop i).take b.length) b (a.getD i 0) 0).2
+
+theorem bnMulBasic_eq (a b : Bn) : bnMulBasic cfg a b =
+    if a.used + b.used > cfg.cap then none
+    else some (bnTrim { neg := a.neg != b.neg, dp :=
+      (List.range a.used).foldl (mulBasicStep cfg.B a.dp b.dp) (List.replicate (a.used + b.used) 0) }) := by
+  unfold bnMulBasic
+  by_cases h : a.used + b.used > cfg.cap
+  · rw [if_pos h, HighMul.grow_fail cfg h]; rfl
+  · rw [if_neg h, HighMul.grow_ok cfg h]; rfl
+
+theorem HighMul.val_zeros (B n : Nat) : val B (List.replicate n 0) = 0 := by
+  have := High.val_replicate_zero B n []
+  simpa [val] using this
+
+theorem HighMul.basic_inv (B : Nat) (hB : 1 < B) (a b : List Nat) (ha : ∀ d ∈ a, d < B)
+    (hb : ∀ d ∈ b, d < B) :
+    ∀ i, i ≤ a.length → ∃ lo,
+      (List.range i).foldl (mulBasicStep B a b) (List.replicate (a.length + b.length) 0)
+        = lo ++ List.replicate (a.length - i) 0
+      ∧ lo.length = i + b.length ∧ (∀ d ∈ lo, d < B) ∧ val B lo = val B (a.take i) * val B b := by
+  intro i
+  induction i with
+  | zero =>
+    intro _
+    refine ⟨List.replicate b.length 0, ?_, by simp, ?_, ?_⟩
+    · rw [Nat.sub_zero, List.replicate_append_replicate, Nat.add_comm]; rfl
+    · intro d hd; rw [List.mem_replicate] at hd; omega
+    · rw [HighMul.val_zeros]; simp [val]
+  | succ i ih =>
+    intro hi
+    obtain ⟨lo, e, hl, hd, hv⟩ := ih (by omega)
+    have hk : a.length - i = (a.length - (i + 1)) + 1 := by omega
+    rw [List.range_succ, List.foldl_append, e, hk]
+    simp only [List.foldl_cons, List.foldl_nil]
+    unfold mulBasicStep
+    rw [HighMul.seg_shape lo _ i b.length hl]
+    have hdl : (lo.drop i).length = b.length := by rw [List.length_drop]; omega
+    obtain ⟨e1, c1, d1, l1⟩ := mulaLow_spec B hB (lo.drop i) b (a.getD i 0) 0 hdl
+      (LowMul.getD_lt B (by omega) a ha i) (by omega) (fun d h => hd d (List.mem_of_mem_drop h)) hb
+    generalize mulaLow B (lo.drop i) b (a.getD i 0) 0 = p at *
+    obtain ⟨seg, cy⟩ := p
+    simp only at e1 c1 d1 l1 ⊢
+    rw [HighMul.step_shape lo seg _ i b.length cy hl l1]
+    refine ⟨_, rfl, ?_, ?_, ?_⟩
+    · simp [l1]; omega
+    · intro d hd'
+      simp only [List.mem_append, List.mem_singleton] at hd'
+      rcases hd' with (h | h) | h
+      · exact hd d (List.mem_of_mem_take h)
+      · exact d1 d h
+      · omega
+    · have hlt : (lo.take i).length = i := by rw [List.length_take]; omega
+      have hai : i < a.length := by omega
+      rw [List.append_assoc, val_append, High.val_snoc, hlt, l1,
+        List.take_succ_eq_append_getElem hai, High.val_snoc, List.length_take, Nat.min_eq_left (by omega)]
+      have hsplit := High.val_take_drop B lo i (by omega)
+      have hg : a.getD i 0 = a[i] := by simp [List.getD_eq_getElem?_getD, hai]
+      rw [hg] at e1
+      rw [Nat.add_mul, ← hv, hsplit]
+      have e1' := congrArg (B ^ i * ·) e1
+      simp only [Nat.mul_add] at e1'
+      generalize B ^ i = X at *
+      generalize B ^ b.length = Y at *
+      grind
+
+
+theorem bnMulBasic_exact (hw : 0 < cfg.w) (a b : Bn) (ha : a.WF cfg.B) (hb : b.WF cfg.B) :
+    ExactR cfg.B (bnMulBasic cfg a b) (a.toInt cfg.B * b.toInt cfg.B) := by
+  have hB := cfg.one_lt_B hw
+  intro c hc
+  rw [bnMulBasic_eq] at hc
+  split at hc
+  · exact absurd hc (by simp)
+  simp only [Option.some.injEq] at hc
+  subst hc
+  obtain ⟨lo, e, _, hd, hv⟩ := HighMul.basic_inv cfg.B hB a.dp b.dp ha.dig hb.dig a.dp.length (Nat.le_refl _)
+  rw [Nat.sub_self, List.replicate_zero, List.append_nil, List.take_length] at *
+  unfold Bn.used
+  rw [e]
+  exact HighMul.mul_fin (by omega) a b lo hd hv
+
+/-! ### one Karatsuba level over Comba -/
+
+theorem HighMul.trim_pos {B : Nat} (hB : 0 < B) (l : List Nat) (hl : ∀ d ∈ l, d < B) :
+    (bnTrim { neg := false, dp := l }).WF B
+    ∧ (bnTrim { neg := false, dp := l }).toInt B = (val B l : Int)
+    ∧ (bnTrim { neg := false, dp := l }).used ≤ max 1 l.length := by
+  have := bnTrim_exact hB false l hl
+  refine ⟨this.1, by simpa using this.2, ?_⟩
+  by_cases he : stripZeros l = []
+  · rw [bnTrim_nil (by simpa using he)]; simp [Bn.used]
+  · rw [bnTrim_ne_nil (by simpa using he)]
+    have := stripZeros_length_le l
+    simp only [Bn.used]; omega
+
+theorem HighMul.used_le_of_val_lt {B : Nat} (hB : 1 < B) {c : Bn} (hc : c.WF B) (k : Nat) (hk : 1 ≤ k)
+    (hv : val B c.dp < B ^ k) : c.used ≤ k := by
+  by_contra hn
+  have h1 := hc.val_ge (by omega)
+  have : B ^ k ≤ B ^ (c.used - 1) := Nat.pow_le_pow_right (by omega) (by omega)
+  omega
+
+/-- value of a non-negative result, from its `toInt` -/
+theorem HighMul.val_of_toInt {B : Nat} (c : Bn) (n : Nat) (h : c.toInt B = (n : Int)) : val B c.dp = n := by
+  have := toInt_natAbs B c
+  rw [h] at this
+  simpa using this.symm
+
+/-- split an operand at digit h: both halves are bounded by the whole, and their sum has at most one
+    more digit -/
+theorem HighMul.split_bound {B : Nat} (hB : 1 < B) (l : List Nat) (hl : ∀ d ∈ l, d < B) (h : Nat)
+    (hh : h ≤ l.length) :
+    val B l = val B (l.take h) + B ^ h * val B (l.drop h)
+    ∧ val B (l.drop h) + val B (l.take h) < B ^ (l.length + 1) := by
+  have e := High.val_take_drop B l h hh
+  refine ⟨e, ?_⟩
+  have h1 : val B (l.drop h) ≤ B ^ h * val B (l.drop h) := Nat.le_mul_of_pos_left _ (Nat.pow_pos (by omega))
+  have h2 := val_lt B l hl
+  have h3 : 2 * B ^ l.length ≤ B * B ^ l.length := Nat.mul_le_mul_right _ (by omega)
+  rw [Nat.pow_succ, Nat.mul_comm]
+  omega
 
 theorem bnMulKarat_exact (hw : 0 < cfg.w) (a b : Bn) (ha : a.WF cfg.B) (hb : b.WF cfg.B)
     (hs : max a.used b.used + 1 < cfg.B) :
-    ExactR cfg.B (bnMulKarat cfg a b) (a.toInt cfg.B * b.toInt cfg.B) := by sorry
-
-theorem bnSqrComba_exact (hw : 0 < cfg.w) (a : Bn) (ha : a.WF cfg.B) (hs : a.used < cfg.B) :
-    ExactR cfg.B (bnSqrComba cfg a) (a.toInt cfg.B * a.toInt cfg.B) := by sorry
+    ExactR cfg.B (bnMulKarat cfg a b) (a.toInt cfg.B * b.toInt cfg.B) := by
+  have hB := cfg.one_lt_B hw
+  have hB0 : 0 < cfg.B := by omega
+  intro c hc
+  unfold bnMulKarat at hc
+  simp only [Option.bind_eq_bind, Option.bind_eq_some_iff, Option.pure_def, Option.some.injEq] at hc
+  obtain ⟨x1, h1, x2, h2, x3, h3, x4, h4, x5, h5, x6, h6, x7, h7, x8, h8, x9, h9, x10, h10, x11, h11,
+    rfl⟩ := hc
+  have hua := ha.used_pos
+  have hub := hb.used_pos
+  generalize hh : min a.used b.used / 2 = h at *
+  have hha : h ≤ a.dp.length := by unfold Bn.used at hh; omega
+  have hhb : h ≤ b.dp.length := by unfold Bn.used at hh; omega
+  -- the four halves
+  obtain ⟨wa0, va0, ua0⟩ := HighMul.trim_pos hB0 (a.dp.take h) (fun d hd => ha.dig d (List.mem_of_mem_take hd))
+  obtain ⟨wa1, va1, ua1⟩ := HighMul.trim_pos hB0 (a.dp.drop h) (fun d hd => ha.dig d (List.mem_of_mem_drop hd))
+  obtain ⟨wb0, vb0, ub0⟩ := HighMul.trim_pos hB0 (b.dp.take h) (fun d hd => hb.dig d (List.mem_of_mem_take hd))
+  obtain ⟨wb1, vb1, ub1⟩ := HighMul.trim_pos hB0 (b.dp.drop h) (fun d hd => hb.dig d (List.mem_of_mem_drop hd))
+  rw [List.length_take] at ua0 ub0
+  rw [List.length_drop] at ua1 ub1
+  obtain ⟨sa, ba⟩ := HighMul.split_bound hB a.dp ha.dig h hha
+  obtain ⟨sb, bb⟩ := HighMul.split_bound hB b.dp hb.dig h hhb
+  generalize bnTrim { neg := false, dp := a.dp.take h } = a0 at *
+  generalize bnTrim { neg := false, dp := a.dp.drop h } = a1 at *
+  generalize bnTrim { neg := false, dp := b.dp.take h } = b0 at *
+  generalize bnTrim { neg := false, dp := b.dp.drop h } = b1 at *
+  generalize val cfg.B (a.dp.take h) = A0 at *
+  generalize val cfg.B (a.dp.drop h) = A1 at *
+  generalize val cfg.B (b.dp.take h) = B0 at *
+  generalize val cfg.B (b.dp.drop h) = B1 at *
+  unfold Bn.used at hs hua hub
+  obtain ⟨w1, e1⟩ := bnMulComba_exact cfg hw a0 b0 wa0 wb0 (by omega) x1 h1
+  obtain ⟨w2, e2⟩ := bnMulComba_exact cfg hw a1 b1 wa1 wb1 (by omega) x2 h2
+  obtain ⟨w3, e3⟩ := bnAdd_exact cfg hw a1 a0 wa1 wa0 x3 h3
+  obtain ⟨w4, e4⟩ := bnAdd_exact cfg hw b1 b0 wb1 wb0 x4 h4
+  rw [va0, va1] at e3
+  rw [vb0, vb1] at e4
+  have v3 := HighMul.val_of_toInt x3 (A1 + A0) (by rw [e3]; push_cast; rfl)
+  have v4 := HighMul.val_of_toInt x4 (B1 + B0) (by rw [e4]; push_cast; rfl)
+  have u3 := HighMul.used_le_of_val_lt hB w3 (a.dp.length + 1) (by omega) (by omega)
+  have u4 := HighMul.used_le_of_val_lt hB w4 (b.dp.length + 1) (by omega) (by omega)
+  obtain ⟨w5, e5⟩ := bnMulComba_exact cfg hw x3 x4 w3 w4 (by omega) x5 h5
+  obtain ⟨w6, e6⟩ := bnSub_exact cfg hw x5 x1 w5 w1 x6 h6
+  obtain ⟨w7, e7⟩ := bnSub_exact cfg hw x6 x2 w6 w2 x7 h7
+  obtain ⟨w8, e8⟩ := bnLsh_exact cfg hw x7 _ w7 x8 h8
+  obtain ⟨w9, e9⟩ := bnLsh_exact cfg hw x2 _ w2 x9 h9
+  obtain ⟨w10, e10⟩ := bnAdd_exact cfg hw x8 x1 w8 w1 x10 h10
+  obtain ⟨w11, e11⟩ := bnAdd_exact cfg hw x10 x9 w10 w9 x11 h11
+  have hP : (2 : Int) ^ (h * cfg.w) = (cfg.B : Int) ^ h := by
+    rw [cfg.B_eq]; push_cast; ring
+  have hP2 : (2 : Int) ^ (2 * h * cfg.w) = (cfg.B : Int) ^ h * (cfg.B : Int) ^ h := by
+    rw [cfg.B_eq]; push_cast; ring
+  have v11 : val cfg.B x11.dp = val cfg.B a.dp * val cfg.B b.dp := by
+    apply HighMul.val_of_toInt
+    rw [e11, e10, e9, e8, e7, e6, e5, e3, e4, e2, e1, va0, va1, vb0, vb1, hP, hP2, sa, sb]
+    push_cast; ring
+  exact HighMul.mul_fin hB0 a b x11.dp w11.dig v11
 
 theorem bnSqrKarat_exact (hw : 0 < cfg.w) (a : Bn) (ha : a.WF cfg.B) (hs : a.used + 1 < cfg.B) :
-    ExactR cfg.B (bnSqrKarat cfg a) (a.toInt cfg.B * a.toInt cfg.B) := by sorry
+    ExactR cfg.B (bnSqrKarat cfg a) (a.toInt cfg.B * a.toInt cfg.B) := by
+  have hB := cfg.one_lt_B hw
+  have hB0 : 0 < cfg.B := by omega
+  intro c hc
+  unfold bnSqrKarat at hc
+  simp only [Option.bind_eq_bind, Option.bind_eq_some_iff, Option.pure_def, Option.some.injEq] at hc
+  obtain ⟨x1, h1, x2, h2, x3, h3, x4, h4, x5, h5, x6, h6, x7, h7, x8, h8, x9, h9, x10, h10, rfl⟩ := hc
+  have hua := ha.used_pos
+  generalize hh : a.used / 2 = h at *
+  have hha : h ≤ a.dp.length := by unfold Bn.used at hh; omega
+  obtain ⟨wa0, va0, ua0⟩ := HighMul.trim_pos hB0 (a.dp.take h) (fun d hd => ha.dig d (List.mem_of_mem_take hd))
+  obtain ⟨wa1, va1, ua1⟩ := HighMul.trim_pos hB0 (a.dp.drop h) (fun d hd => ha.dig d (List.mem_of_mem_drop hd))
+  rw [List.length_take] at ua0
+  rw [List.length_drop] at ua1
+  obtain ⟨sa, ba⟩ := HighMul.split_bound hB a.dp ha.dig h hha
+  generalize bnTrim { neg := false, dp := a.dp.take h } = a0 at *
+  generalize bnTrim { neg := false, dp := a.dp.drop h } = a1 at *
+  generalize val cfg.B (a.dp.take h) = A0 at *
+  generalize val cfg.B (a.dp.drop h) = A1 at *
+  unfold Bn.used at hs hua
+  obtain ⟨w1, e1⟩ := bnSqrComba_exact cfg hw a0 wa0 (by omega) x1 h1
+  obtain ⟨w2, e2⟩ := bnSqrComba_exact cfg hw a1 wa1 (by omega) x2 h2
+  obtain ⟨w3, e3⟩ := bnAdd_exact cfg hw a1 a0 wa1 wa0 x3 h3
+  rw [va0, va1] at e3
+  have v3 := HighMul.val_of_toInt x3 (A1 + A0) (by rw [e3]; push_cast; rfl)
+  have u3 := HighMul.used_le_of_val_lt hB w3 (a.dp.length + 1) (by omega) (by omega)
+  obtain ⟨w4, e4⟩ := bnSqrComba_exact cfg hw x3 w3 (by omega) x4 h4
+  obtain ⟨w5, e5⟩ := bnAdd_exact cfg hw x1 x2 w1 w2 x5 h5
+  obtain ⟨w6, e6⟩ := bnSub_exact cfg hw x4 x5 w4 w5 x6 h6
+  obtain ⟨w7, e7⟩ := bnLsh_exact cfg hw x6 _ w6 x7 h7
+  obtain ⟨w8, e8⟩ := bnLsh_exact cfg hw x2 _ w2 x8 h8
+  obtain ⟨w9, e9⟩ := bnAdd_exact cfg hw x7 x1 w7 w1 x9 h9
+  obtain ⟨w10, e10⟩ := bnAdd_exact cfg hw x9 x8 w9 w8 x10 h10
+  have hP : (2 : Int) ^ (h * cfg.w) = (cfg.B : Int) ^ h := by
+    rw [cfg.B_eq]; push_cast; ring
+  have hP2 : (2 : Int) ^ (2 * h * cfg.w) = (cfg.B : Int) ^ h * (cfg.B : Int) ^ h := by
+    rw [cfg.B_eq]; push_cast; ring
+  have v10 : val cfg.B x10.dp = val cfg.B a.dp * val cfg.B a.dp := by
+    apply HighMul.val_of_toInt
+    rw [e10, e9, e8, e7, e6, e5, e4, e3, e2, e1, va0, va1, hP, hP2, sa]
+    push_cast; ring
+  have := HighMul.mul_fin hB0 a a x10.dp w10.dig v10
+  simpa using this
 
-theorem bnMul_total (a b : Bn) (h : a.used + b.used ≤ cfg.cap) :
-    (bnMulBasic cfg a b).isSome ∧ (bnMulComba cfg a b).isSome := by sorry
+/-! ### division -/
 
-theorem bnDivRem_exact (hw : 2 ≤ cfg.w) (a b : Bn) (ha : a.WF cfg.B) (hb : b.WF cfg.B) :
-    ∀ q r tr, bnDivRem cfg a b = some (q, r, tr) →
-      q.WF cfg.B ∧ r.WF cfg.B ∧ q.toInt cfg.B = Int.fdiv (a.toInt cfg.B) (b.toInt cfg.B)
-      ∧ r.toInt cfg.B = Int.fmod (a.toInt cfg.B) (b.toInt cfg.B) := by sorry
+/-- `val = 0` characterises the normal form `[0]`, for every base B > 0 (also B = 1) -/
+theorem HighMul.dp_of_val_zero {B : Nat} (hB : 0 < B) {a : Bn} (h : a.WF B) (hv : val B a.dp = 0) :
+    a.dp = [0] := by
+  rcases h.2.2.1 with h1 | h1
+  · match hdp : a.dp with
+    | [] => exact absurd hdp h.1
+    | [x] => rw [hdp] at hv; simp [val] at hv; simp [hv]
+    | _ :: _ :: _ => rw [hdp] at h1; simp at h1
+  · have := High.val_ge_of_top B a.dp h.1 h1
+    have : 0 < B ^ (a.dp.length - 1) := Nat.pow_pos hB
+    omega
 
 theorem bnDivRem_zero (a b : Bn) (hb : b.toInt cfg.B = 0) (hbw : b.WF cfg.B) : bnDivRem cfg a b = none := by
-  sorry
+  have hv := (toInt_eq_zero_iff cfg.B b).1 hb
+  have hdp := HighMul.dp_of_val_zero (B := cfg.B) (Nat.pow_pos (by omega)) hbw hv
+  unfold bnDivRem
+  rw [if_pos]
+  unfold bnIsZero
+  rw [hdp]; rfl
 
 theorem bnDivRemDig_exact (hw : 0 < cfg.w) (a : Bn) (b : Nat) (ha : a.WF cfg.B) (hb0 : 0 < b)
     (hbB : b < cfg.B) (hg : 0 ≤ a.toInt cfg.B ∨ (b : Int) ∣ a.toInt cfg.B) :
     ∀ q r, bnDivRemDig cfg a b = some (q, r) →
       q.WF cfg.B ∧ q.toInt cfg.B = Int.fdiv (a.toInt cfg.B) b ∧ (r : Int) = Int.fmod (a.toInt cfg.B) b := by
-  sorry
+  have hB := cfg.one_lt_B hw
+  intro q r hc
+  unfold bnDivRemDig at hc
+  rw [if_neg (by omega)] at hc
+  split at hc
+  · rename_i h1
+    simp only [Option.some.injEq, Prod.mk.injEq] at hc
+    obtain ⟨rfl, rfl⟩ := hc
+    rw [bnTrim_of_WF ha]
+    refine ⟨ha, ?_⟩
+    rcases h1 with h1 | h1
+    · subst h1; simp
+    · have hv := (ha.isZero_iff hB).1 h1
+      have : a.toInt cfg.B = 0 := (toInt_eq_zero_iff cfg.B a).2 hv
+      rw [this]; simp
+  · obtain ⟨e, c1, d1, l1⟩ := div1Low_spec cfg.B hB a.dp b hb0 hbB ha.dig
+    generalize div1Low cfg.B a.dp b = p at *
+    obtain ⟨qd, rd⟩ := p
+    simp only [Option.some.injEq, Prod.mk.injEq] at hc e c1 d1 l1
+    obtain ⟨rfl, hr⟩ := hc
+    have hq : val cfg.B qd = val cfg.B a.dp / b := by
+      rw [← e, Nat.mul_comm, Nat.mul_add_div hb0, Nat.div_eq_of_lt c1, Nat.add_zero]
+    have hrm : rd = val cfg.B a.dp % b := by
+      rw [← e, Nat.mul_comm, Nat.mul_add_mod, Nat.mod_eq_of_lt c1]
+    have := fdiv_fin hB a b hb0 ha hg qd d1 hq
+    refine ⟨this.1, this.2, ?_⟩
+    rw [Int.fmod_eq_emod_of_nonneg _ (by omega)]
+    cases han : a.neg
+    · simp only [han, Bool.false_eq_true, false_and, if_false] at hr
+      rw [← hr, hrm, toInt_of_pos han]; simp
+    · rw [toInt_of_neg han] at hg ⊢
+      have hp := ha.neg_pos hB han
+      have hdvd : (b : Int) ∣ (val cfg.B a.dp : Int) := by
+        rcases hg with h | h
+        · omega
+        · exact (Int.dvd_neg).1 h
+      have h0 : rd = 0 := by
+        rw [hrm]; exact Nat.mod_eq_zero_of_dvd (Int.ofNat_dvd.1 hdvd)
+      simp only [han, h0, ne_eq, not_true_eq_false, and_false, if_false] at hr
+      rw [← hr, Int.emod_eq_zero_of_dvd (Int.dvd_neg.2 hdvd)]; rfl
+
+/-! ### bn_div_imp: Knuth D on the magnitudes, then the floor fix-up -/
+
+/-- the raw quotient / remainder of bn_div_imp, before the floor fix-up -/
+def divQ (a b : Bn) : Bn :=
+  bnTrim { neg := a.neg != b.neg, dp := (divnLow cfg.w a.dp b.dp).1.take (a.used - b.used + 1) }
+def divR (a b : Bn) : Bn :=
+  bnTrim { neg := b.neg, dp := (divnLow cfg.w a.dp b.dp).2.1.take b.used }
+
+theorem bnDivImp_eq (a b : Bn) : bnDivImp cfg a b =
+    if bnCmpAbs a b = -1 then
+      if (bnIsZero a || decide (a.neg = b.neg)) = true then some (Bn.zero, bnTrim a, {})
+      else (bnAdd cfg a b).bind fun d => some ({ neg := true, dp := [1] }, d, {})
+    else if a.used + 1 > cfg.cap then none
+    else
+      if (!bnIsZero (divR cfg a b) && (a.neg != b.neg)) = true then
+        (bnSubDig cfg (divQ cfg a b) 1).bind fun c =>
+          (bnSub cfg b (divR cfg a b)).bind fun d => some (c, d, (divnLow cfg.w a.dp b.dp).2.2)
+      else some (divQ cfg a b, divR cfg a b, (divnLow cfg.w a.dp b.dp).2.2) := by
+  unfold bnDivImp divQ divR
+  by_cases h1 : bnCmpAbs a b = -1
+  · simp only [h1, if_true]
+    split <;> rfl
+  · simp only [h1, if_false]
+    by_cases h2 : a.used + 1 > cfg.cap
+    · rw [if_pos h2, HighMul.grow_fail cfg h2]; rfl
+    · rw [if_neg h2, HighMul.grow_ok cfg h2]
+      rfl
+
+theorem HighMul.fdiv_fmod_of {a b q r : Int} (hb : b ≠ 0) (e : r + b * q = a)
+    (h1 : 0 < b → 0 ≤ r ∧ r < b) (h2 : b < 0 → b < r ∧ r ≤ 0) :
+    q = Int.fdiv a b ∧ r = Int.fmod a b := by
+  rcases Int.lt_or_gt_of_ne hb with h | h
+  · have := (Int.fdiv_fmod_unique' (a := a) (q := q) (r := r) h).2 ⟨e, h2 h⟩
+    exact ⟨this.1.symm, this.2.symm⟩
+  · have := (Int.fdiv_fmod_unique (a := a) (q := q) (r := r) h).2 ⟨e, h1 h⟩
+    exact ⟨this.1.symm, this.2.symm⟩
+
+/-- the floor fix-up of bn_div_imp, as pure integer arithmetic over the Euclidean (Q, R) of the magnitudes -/
+theorem HighMul.floor_fix (A Bv Q R : Nat) (na nb : Bool) (e : Q * Bv + R = A) (hR : R < Bv) :
+    let ai : Int := if na then -(A : Int) else A
+    let bi : Int := if nb then -(Bv : Int) else Bv
+    let qi : Int := if (na != nb) then -(Q : Int) else Q
+    let ri : Int := if nb then -(R : Int) else R
+    (R ≠ 0 ∧ na ≠ nb → qi - 1 = Int.fdiv ai bi ∧ bi - ri = Int.fmod ai bi)
+    ∧ (¬ (R ≠ 0 ∧ na ≠ nb) → qi = Int.fdiv ai bi ∧ ri = Int.fmod ai bi) := by
+  have e' : (Q : Int) * Bv + R = A := by exact_mod_cast e
+  intro ai bi qi ri
+  constructor
+  · rintro ⟨h0, hne⟩
+    apply HighMul.fdiv_fmod_of
+    · cases nb <;> simp [bi] <;> omega
+    · cases na <;> cases nb <;> simp [ai, bi, qi, ri] at hne ⊢ <;> linarith
+    · cases na <;> cases nb <;> simp [bi, ri] at hne ⊢ <;> omega
+    · cases na <;> cases nb <;> simp [bi, ri] at hne ⊢ <;> omega
+  · intro h
+    apply HighMul.fdiv_fmod_of
+    · cases nb <;> simp [bi] <;> omega
+    · cases na <;> cases nb <;> simp [ai, bi, qi, ri] at h ⊢ <;> linarith
+    · cases na <;> cases nb <;> simp [bi, ri] at h ⊢ <;> omega
+    · cases na <;> cases nb <;> simp [bi, ri] at h ⊢ <;> omega
+
+/-- Knuth D on the magnitudes (|a| ≥ |b| > 0): the raw quotient and remainder of bn_div_imp -/
+theorem HighMul.divQR (hw : 2 ≤ cfg.w) (a b : Bn) (ha : a.WF cfg.B) (hb : b.WF cfg.B)
+    (hbz : val cfg.B b.dp ≠ 0) (hge : val cfg.B b.dp ≤ val cfg.B a.dp) :
+    ∃ Q R : Nat, Q * val cfg.B b.dp + R = val cfg.B a.dp ∧ R < val cfg.B b.dp
+      ∧ (divQ cfg a b).WF cfg.B ∧ (divR cfg a b).WF cfg.B
+      ∧ (divQ cfg a b).toInt cfg.B = (if (a.neg != b.neg) then -(Q : Int) else Q)
+      ∧ (divR cfg a b).toInt cfg.B = (if b.neg then -(R : Int) else R) := by
+  have hB := cfg.one_lt_B (by omega)
+  have hab : b.dp.length ≤ a.dp.length := Bn.WF.used_le_of_val_le hB hb ha hge
+  obtain ⟨init, x, hdp, hx⟩ := hb.top hbz
+  have hbt : b.dp.getLast? ≠ some 0 := by rw [hdp]; simpa using hx
+  obtain ⟨e, lt, dq, dr, _, _⟩ := divnLow_spec cfg.w hw a.dp b.dp hab hb.1 hbt ha.dig hb.dig hge
+  rw [← cfg.B_eq] at e lt dq dr
+  have hq := bnTrim_exact (B := cfg.B) (by omega) (a.neg != b.neg) _ dq
+  have hr := bnTrim_exact (B := cfg.B) (by omega) b.neg _ dr
+  exact ⟨_, _, e, lt, hq.1, hr.1, hq.2, hr.2⟩
+
+theorem bnDivRem_exact (hw : 2 ≤ cfg.w) (a b : Bn) (ha : a.WF cfg.B) (hb : b.WF cfg.B) :
+    ∀ q r tr, bnDivRem cfg a b = some (q, r, tr) →
+      q.WF cfg.B ∧ r.WF cfg.B ∧ q.toInt cfg.B = Int.fdiv (a.toInt cfg.B) (b.toInt cfg.B)
+      ∧ r.toInt cfg.B = Int.fmod (a.toInt cfg.B) (b.toInt cfg.B) := by
+  have hw0 : 0 < cfg.w := by omega
+  have hB := cfg.one_lt_B hw0
+  intro q r tr hc
+  unfold bnDivRem at hc
+  split at hc
+  · exact absurd hc (by simp)
+  rename_i hbz
+  have hbv : val cfg.B b.dp ≠ 0 := fun h => hbz ((hb.isZero_iff hB).2 h)
+  rw [bnDivImp_eq] at hc
+  have hcmp := bnCmpAbs_lt_iff hB a b ha hb
+  have hai : a.toInt cfg.B = if a.neg then -(val cfg.B a.dp : Int) else (val cfg.B a.dp : Int) := rfl
+  have hbi : b.toInt cfg.B = if b.neg then -(val cfg.B b.dp : Int) else (val cfg.B b.dp : Int) := rfl
+  have hpa := ha.neg_pos hB
+  have hpb := hb.neg_pos hB
+  split at hc
+  · -- |a| < |b|
+    rename_i h1
+    have hlt := hcmp.1 h1
+    split at hc
+    · rename_i h2
+      simp only [Option.some.injEq, Prod.mk.injEq] at hc
+      obtain ⟨rfl, rfl, _⟩ := hc
+      rw [bnTrim_of_WF ha]
+      refine ⟨by refine ⟨by simp [Bn.zero], ?_, by simp [Bn.zero], fun _ => rfl⟩; simp [Bn.zero]; omega, ha, ?_⟩
+      have hq0 : Bn.zero.toInt cfg.B = 0 := by simp [Bn.zero, Bn.toInt, val]
+      rw [hq0]
+      apply HighMul.fdiv_fmod_of
+      · rw [hbi]; split <;> omega
+      · simp
+      · simp only [Bool.or_eq_true, decide_eq_true_eq] at h2
+        rcases h2 with h2 | h2
+        · have := (ha.isZero_iff hB).1 h2
+          rw [hai, hbi, this]; split <;> split <;> omega
+        · rw [hai, hbi, h2]; split <;> omega
+      · simp only [Bool.or_eq_true, decide_eq_true_eq] at h2
+        rcases h2 with h2 | h2
+        · have := (ha.isZero_iff hB).1 h2
+          rw [hai, hbi, this]; split <;> split <;> omega
+        · rw [hai, hbi, h2]; split <;> omega
+    · rename_i h2
+      simp only [Bool.or_eq_true, decide_eq_true_eq, not_or] at h2
+      obtain ⟨h2z, h2n⟩ := h2
+      have haz : val cfg.B a.dp ≠ 0 := fun h => h2z ((ha.isZero_iff hB).2 h)
+      simp only [Option.bind_eq_some_iff, Option.some.injEq, Prod.mk.injEq] at hc
+      obtain ⟨d, hd, rfl, rfl, _⟩ := hc
+      obtain ⟨wd, ed⟩ := bnAdd_exact cfg hw0 a b ha hb d hd
+      have hq1 : ({ neg := true, dp := [1] } : Bn).toInt cfg.B = -1 := by simp [Bn.toInt, val]
+      refine ⟨⟨by simp, by simpa using hB, by simp, by simp⟩, wd, ?_⟩
+      rw [hq1, ed]
+      apply HighMul.fdiv_fmod_of
+      · rw [hbi]; split <;> omega
+      · omega
+      · rw [hai, hbi]
+        cases han : a.neg <;> cases hbn : b.neg <;> simp_all <;> omega
+      · rw [hai, hbi]
+        cases han : a.neg <;> cases hbn : b.neg <;> simp_all <;> omega
+  · -- |a| ≥ |b|: Knuth D
+    rename_i h1
+    have hge : val cfg.B b.dp ≤ val cfg.B a.dp := by
+      have : ¬ _ := fun h => h1 (hcmp.2 h)
+      omega
+    split at hc
+    · exact absurd hc (by simp)
+    obtain ⟨Q, R, e, hR, wq, wr, eq, er⟩ := HighMul.divQR cfg hw a b ha hb hbv hge
+    obtain ⟨f1, f2⟩ := HighMul.floor_fix _ _ Q R a.neg b.neg e hR
+    simp only [← hai, ← hbi, ← eq, ← er] at f1 f2
+    have hrz : bnIsZero (divR cfg a b) = true ↔ R = 0 := by
+      rw [wr.isZero_iff hB, ← toInt_eq_zero_iff, er]
+      split <;> omega
+    split at hc
+    · rename_i h3
+      simp only [Bool.and_eq_true, Bool.not_eq_true', bne_iff_ne, ne_eq] at h3
+      have hR0 : R ≠ 0 := fun h => by have := hrz.2 h; simp [this] at h3
+      simp only [Option.bind_eq_some_iff, Option.some.injEq, Prod.mk.injEq] at hc
+      obtain ⟨c, hc1, d, hd, rfl, rfl, _⟩ := hc
+      obtain ⟨wc, ec⟩ := bnSubDig_exact cfg hw0 _ 1 wq hB c hc1
+      obtain ⟨wd, ed⟩ := bnSub_exact cfg hw0 b _ hb wr d hd
+      obtain ⟨g1, g2⟩ := f1 ⟨hR0, h3.2⟩
+      refine ⟨wc, wd, ?_, ?_⟩
+      · rw [ec, ← g1]; rfl
+      · rw [ed, ← g2]
+    · rename_i h3
+      simp only [Bool.and_eq_true, Bool.not_eq_true', bne_iff_ne, ne_eq, not_and] at h3
+      simp only [Option.some.injEq, Prod.mk.injEq] at hc
+      obtain ⟨rfl, rfl, _⟩ := hc
+      obtain ⟨g1, g2⟩ := f2 (by
+        rintro ⟨hR0, hne⟩
+        exact h3 (by
+          cases hz : bnIsZero (divR cfg a b)
+          · rfl
+          · exact absurd (hrz.1 hz) hR0) hne)
+      exact ⟨wq, wr, g1, g2⟩
 
 end Relic.Model
